@@ -55,7 +55,22 @@ func (w *World) buildGlobalIndex() {
 						derived[x] = g
 					}
 				case *ssa.UnOp:
-					// load: fine
+					// load: fine for the variable itself; a loaded map value must only be read
+					if g, ok := x.X.(*ssa.Global); ok {
+						if _, isMap := x.Type().Underlying().(*types.Map); isMap && !isInit {
+							for _, ref := range *x.Referrers() {
+								switch r := ref.(type) {
+								case *ssa.Lookup, *ssa.Range, *ssa.DebugRef:
+								case *ssa.Call:
+									if b, ok := r.Call.Value.(*ssa.Builtin); !ok || b.Name() != "len" {
+										w.globalWritten[g] = true
+									}
+								default:
+									w.globalWritten[g] = true
+								}
+							}
+						}
+					}
 				case *ssa.Store:
 					if g := originOf(x.Addr); g != nil && !isInit {
 						w.globalWritten[g] = true
@@ -177,6 +192,9 @@ func (u *Unit) installGlobals(mem MemState, fns ...*ssa.Function) MemState {
 		byPkg[g.Pkg] = append(byPkg[g.Pkg], g)
 	}
 	for sp, gs := range byPkg {
+		ctr0 := u.objCtr
+		mem = mem.clone()
+		u.addMapTypes(&mem, sp.Func("init"))
 		initMem, ok := u.runInit(sp, mem)
 		if !ok {
 			u.note("initial values of the package-level variables of " + sp.Pkg.Path() + " are not modelled (initialiser outside the supported subset)")
@@ -190,6 +208,22 @@ func (u *Unit) installGlobals(mem MemState, fns ...*ssa.Function) MemState {
 				mem.m[k] = u.mc.ObjRange(m, id, id, initMem.m[k])
 			}
 			u.roGlobals = append(u.roGlobals, g.Pkg.Pkg.Name()+"."+g.Name())
+		}
+		// map objects created by the initialiser (contents of read-only map variables)
+		if u.objCtr > ctr0 {
+			lo, hi := tb.BVU(32, uint64(freshBase+ctr0+1)), tb.BVU(32, uint64(freshBase+u.objCtr))
+			for k, m := range mem.mp {
+				if src, ok := initMem.mp[k]; ok && src != m {
+					mem.mp[k] = u.mc.mnode(&MapNode{kind: mpObjRange, sort: m.sort, prev: m, obj: lo, limit: hi, fresh: src})
+				}
+			}
+			k := mapLenKey // map lengths
+			for _, id := range u.mapObjs {
+				if id > ctr0 && id <= u.objCtr {
+					o := tb.BVU(32, uint64(freshBase+id))
+					mem.m[k] = u.mc.ObjRange(mem.m[k], o, o, initMem.m[k])
+				}
+			}
 		}
 	}
 	return mem
